@@ -41,7 +41,8 @@ def make_kwargs_factory(kind, base, status_mode="ok", recv_mode="ok", with_send=
         return dict(kind=kind,
                     # with_send=False: no application send() at the end (a later send would mask a client
                     # that gave up reconnecting: its failure triggers a new connect())
-                    script=[it_connect, it_feed(a[:7]), it_feed(a[7:]), it_feed(pk["A2"])]
+                    # 'whatever the peer does': the traffic includes an undecodable packet and a well-framed one the decoder raises on
+                    script=[it_connect, it_feed(a[:7]), it_feed(a[7:]), it_feed(pk["BAD"] + pk["RAISE"]), it_feed(pk["A2"])]
                            + ([it_send(lambda: clientkit.heading_message(66))] if with_send else []),
                     specials=sp, deviations=devs, heal=steady_state(pk["PROBE"]),
                     connect_plan=BASES[base], status_cb=status_mode, recv_cb=recv_mode)
@@ -180,7 +181,7 @@ def plan(ctx):
             tasks.append((kind, "r3", 1, names, None))
             tasks.append((kind, "r7", 1, ["eof", "reset"], None))
             tasks.append((kind, "n2" if kind == "waveshare" else "u2", 1, names, None))
-        for modes in (("slow", "ok"), ("raise", "raise"), ("ok", "slow")):
+        for modes in (("slow", "ok"), ("raise", "raise"), ("ok", "slow"), ("ok", "send")):
             tasks.append((kind, "r1", 2 if ctx.thorough else 1, names, None, modes))
         # a send() racing with a fault while connect() is still finishing (slow status callback holds the connect lock)
         race = ["send", "reset", "write_fail", "eof"]
